@@ -47,7 +47,7 @@ func runC10(c *core.Ctx) {
 		cfg.Writers = 1 + rng.Intn(4)
 		cfg.PerWriter = 4 + rng.Intn(12)
 		cfg.Procs = []int{1, 2, 4, 8}[rng.Intn(4)]
-		cfg.Entries = []int{wl.EWrite1, wl.EWritev, wl.ECtxWrite1, wl.ECtxWritev, wl.EWriter, wl.EReadFrom}
+		cfg.Entries = []int{wl.EWrite1, wl.EWritev, wl.ECtxWrite1, wl.ECtxWritev, wl.EWriter, wl.EReadFrom, wl.EReadFromEOF}
 		switch rng.Intn(3) {
 		case 0:
 			cfg.Sizes = []int{16, 17, 100, 500, 1023, 1024} // ReadFrom-safe: single chunk
